@@ -100,4 +100,17 @@ func checkC20(c *Check) {
 	reportGuard(c, "UNGUARDED-SITE", res)
 	runRec(c, "RECURSION", entries, nil, excluded...)
 	runDeref(c, "UNCHECKED-LOOKUP", entries, res, nil, excluded...)
+	// an error bound to a variable and never read: the command goes on with the
+	// nil/zero results of the failed call
+	scope := map[*ssa.Function]bool{}
+	for f := range res.All {
+		if isRepoFn(f) {
+			for _, g := range withClosures(f) {
+				scope[g] = true
+			}
+		}
+	}
+	nDead := deadErrors(c, "DEAD-ERROR", scope)
+	c.Counts["dead_error_assignments"] = nDead
+	c.Okf("DEAD-ERROR", "scan", "-", "%d reachable repository functions scanned for error results bound to a variable that is never read: %d found", len(scope), nDead)
 }
